@@ -128,3 +128,25 @@ package nflog
 //@ lemma nflog_lww_newest: forall d set[string], t arr[string]int, k string, ts int, exp int, now int ::
 //@     exp >= now ==> k in aDom(d, t, k, ts, exp, now) && aTs(d, t, k, ts, exp, now)[k] == ((k in d && t[k] >= ts) ? t[k] : ts)
 //@   props C10 C09
+
+// ---- C11: snapshot files. The effect order that makes a snapshot atomic: the data goes to a freshly created
+// (truncated) temporary file; that file replaces the snapshot only after it was synced and closed without error;
+// and maintenance closes-and-renames only a snapshot that was written completely.
+//@ func (*replaceFile).Close
+//@   props C11
+//@   nosafe
+//@   at call os.Rename assert [rename-after-sync-and-close] called("os.File).Sync") && ret("os.File).Sync") == nil && called("os.File).Close") && ret("os.File).Close") == nil
+//@   ensures [renamed-iff-ok] (result == nil) ==> called("os.Rename")
+//@   ensures [sync-first] called("os.File).Close") ==> called("os.File).Sync") && ret("os.File).Sync") == nil
+//@ func openReplace
+//@   props C11
+//@   nosafe
+//@   ensures [fresh-truncated-temp-file] result1 == nil ==> called("os.Create") && ret1("os.Create") == nil && result0 != nil && result0.File == ret("os.Create") && result0.filename == filename
+//@   ensures [target-untouched] !called("os.Rename") && !called("os.Remove")
+//@   ensures [error-means-nothing] result1 != nil ==> result0 == nil
+//@ func (*Log).Maintenance$1
+//@   props C11
+//@   nosafe
+//@   at call replaceFile).Close assert [rename-only-complete-snapshot] called("Log).Snapshot") && ret1("Log).Snapshot") == nil
+//@   ensures [error-reported] called("Log).Snapshot") && ret1("Log).Snapshot") != nil ==> result1 != nil
+//@   noeffect Log).GC Log).Snapshot openReplace replaceFile).Close
